@@ -88,7 +88,8 @@ ASSUMPTIONS = [
     "the order of list(set(...)) inside _get_required_tomo_measurements depends on Python's per-process "
     "string hash seed; the order actually seen by the callback is recorded and fed to the model; "
     "additional orders are exercised in sub-processes with fixed PYTHONHASHSEED values",
-    "base circuits: heralds only through added sub-circuits (the library's gates); a herald declared "
+    "base circuits: heralds only through added sub-circuits (the library's gates, and user-made unitary sub-circuits "
+    "with 1-2 heralds of 0 / 1 photons on any of their modes, also between the two rails of a qubit); a herald declared "
     "directly on the base circuit does not renumber the modes addressed by Circuit.add and is outside "
     "the quantifier (2n visible modes addressed as 0..2n-1)",
     "n = 1..3 qubits in the correspondence check (theorems are for every n)",
@@ -97,6 +98,8 @@ ASSUMPTIONS = [
     "the base circuit AFTER such a call is outside the quantifier like any directly declared herald",
     "histories: the experiment callback and experiment_args are the object's public attributes; the state "
     "'the base circuit prepares' is taken for the input the CURRENT experiment / experiment_args use",
+    "global settings (state stream): sampler_probability_threshold in {1e-3 .. 0.3}, unitary_precision in {1e-12 .. 1e-2} "
+    "while a case runs, data from the Simulator (the Sampler back-ends legitimately consult the threshold)",
     "fidelity convention: F = tr sqrt(sqrt(rho) sigma sqrt(rho)) (no square), as the code and the model's "
     "stateFidelity define it; mixed-state comparisons are correspondence checks, only F = 1 against the "
     "prepared / returned matrix is a clause of the property",
@@ -123,6 +126,13 @@ def meta(ctx: Ctx, n: int) -> dict:
 # --------------------------------------------------------------------------- case generation
 
 
+def derived_rng(rng):
+    """a random stream of its own, a function of where `rng` stands, that does not consume anything from `rng`: new
+    dimensions are added to the generation without changing the cases the older streams produce per seed"""
+    st = rng.getstate()[1]
+    return random.Random(f"derived-{st[-1]}-{st[0]}-{st[1]}-{st[st[-1] % 624]}")
+
+
 def gen_wild(rng, n: int) -> list:
     prog: list = []
     if rng.random() < 0.8:
@@ -145,6 +155,37 @@ def gen_wild(rng, n: int) -> list:
             if seen > 1:
                 continue
         out.append(g)
+    # a user-made heralded sub-circuit: heralds on any of its modes, also BETWEEN the two rails of a qubit (the
+    # library's own gates keep theirs outside).  Own random stream: the wild circuits proper stay what they were per seed.
+    xr = derived_rng(rng)
+    if seen == 0 and xr.random() < 0.5:
+        out.insert(xr.randint(0, len(out)), tm.rand_heralded_unitary(xr, n))
+    return out
+
+
+def state_corpus() -> list:
+    """directed one-shot cases: user-made heralded sub-circuits whose heralds sit BETWEEN the two rails of a qubit (every
+    qubit of it), on the first / last mode, with input and output herald on different modes, with a 1-photon herald;
+    alone and followed / preceded by ordinary gates (fixed random stream: the same cases in every run)"""
+    r = random.Random("C15-state-corpus")
+    out = []
+    for n, her, pre, post in [(1, [[0, 1, 1]], [], []), (2, [[0, 1, 1], [0, 4, 4]], [], []), (2, [[0, 1, 1]], [["H", 0]], [["SX", 1]]),
+                              (1, [[0, 0, 2]], [["H", 0]], []), (2, [[1, 2, 2]], [], [["T", 0]]), (3, [[0, 3, 3]], [], [["H", 2]]),
+                              (2, [[0, 4, 0]], [["SX", 0], ["H", 1]], [])]:
+        m = 2 * n + len(her)
+        heru = ["HERU", cg.mat_json(cg.exact_unitary(r, m, depth=2 * m)), her]
+        out.append({"stream": "state", "n": n, "prog": [*pre, heru, *post], "in_bits": [0] * n, "source": "sim",
+                    "shuffle": r.randrange(1 << 30), "drop_zero": False})
+    # states with rare outcomes (probabilities 0.15, 0.04, 0.02 ...), reconstructed while a global setting is not at its
+    # default
+    for n, prog, sett in [(1, [["H", 0], ["T", 0], ["H", 0]], {"sampler_probability_threshold": 0.3}),
+                          (2, [["H", 0], ["T", 0], ["H", 0], ["SX", 1], ["T", 1], ["H", 1], ["CNOT", 0, 1, {"impl": "ps"}]],
+                           {"sampler_probability_threshold": 0.1}),
+                          (2, [["H", 0], ["T", 0], ["SX", 0], ["T", 0], ["H", 0], ["H", 1], ["Tadj", 1], ["H", 1]],
+                           {"sampler_probability_threshold": 1e-2, "unitary_precision": 1e-2}),
+                          (1, [["SX", 0], ["T", 0], ["H", 0]], {"unitary_precision": 1e-2})]:
+        out.append({"stream": "state", "n": n, "prog": prog, "in_bits": [0] * n, "source": "sim",
+                    "shuffle": r.randrange(1 << 30), "drop_zero": False, "settings": sett})
     return out
 
 
@@ -158,6 +199,7 @@ def gen_state_case(ctx: Ctx, rng) -> dict:
     in_bits = [0] * n if rng.random() < 0.75 else [rng.randint(0, 1) for _ in range(n)]
     n_modes_est = 2 * n + sum(2 if g[0] in ("CZ", "CNOT") and g[3]["impl"] == "ps" else 4
                               for g in prog if g[0] in ("CZ", "CNOT"))
+    n_modes_est += sum(len(g[2]) + 2 * sum(h[0] for h in g[2]) for g in prog if g[0] == "HERU")
     source = "sim"
     if n_modes_est <= 8 and rng.random() < 0.35:
         source = rng.choice(["permanent", "slos"])
@@ -166,6 +208,15 @@ def gen_state_case(ctx: Ctx, rng) -> dict:
     if TOP_HERALDS and rng.random() < 0.2:
         # opt-in (C15_TOP_HERALDS=1): an idle vacuum mode heralded DIRECTLY on the base circuit
         case["top_herald"] = rng.choice(["first", "last"])
+        case["source"] = "sim"
+    # configuration dimension: non-default global settings while the tomography runs (own random stream)
+    xr = derived_rng(rng)
+    if xr.random() < 0.25:
+        key = xr.choice(["sampler_probability_threshold", "sampler_probability_threshold", "unitary_precision"])
+        case["settings"] = {key: xr.choice(SETTING_VALUES[key])}
+        if xr.random() < 0.3:
+            case["settings"]["unitary_precision" if key != "unitary_precision" else "sampler_probability_threshold"] = \
+                xr.choice(SETTING_VALUES["unitary_precision" if key != "unitary_precision" else "sampler_probability_threshold"])
         case["source"] = "sim"
     return case
 
@@ -537,6 +588,24 @@ def check_process_call(ctx: Ctx, n: int, base, tomo, rec: dict, in_state, mprog,
 
 
 def run_state(ctx: Ctx, case: dict, want_detail: bool = False):
+    """(case["settings"]: process-global lightworks.settings in force while the case runs - restored afterwards.  The
+    reconstruction is a function of the outcome frequencies alone; the data source of such cases is the Simulator, which
+    does not consult the settings, unlike the Sampler back-ends)"""
+    sett = case.get("settings") or {}
+    saved = {k: getattr(lw.settings, k) for k in sett}
+    try:
+        for k, v in sett.items():
+            setattr(lw.settings, k, v)
+        return _run_state(ctx, case, want_detail)
+    finally:
+        for k, v in saved.items():
+            setattr(lw.settings, k, v)
+
+
+SETTING_VALUES = {"sampler_probability_threshold": [1e-3, 1e-2, 0.1, 0.3], "unitary_precision": [1e-12, 1e-4, 1e-2]}
+
+
+def _run_state(ctx: Ctx, case: dict, want_detail: bool = False):
     n, prog = case["n"], case["prog"]
     base = tm.build_base(n, prog)
     if case.get("top_herald"):
@@ -632,7 +701,10 @@ def recheck_global(ctx: Ctx, when: str) -> None:
         if not _same(raw, cp):
             ctx.violation(f"oracle: retained result changed: {what} (the {k + 1}th matrix handed out in this run) is no longer "
                           f"what was handed out (max difference {_maxdiff(raw, cp)}), noticed {when}",
-                          {"stream": "retained", "which": k, "what": what, "when": when}, sig={"kind": "retained result changed (run-wide)"})
+                          {"case": {"stream": "retained", "which": k, "what": what, "when": when,
+                                    "note": "run-wide observation (no single case): the replay runs the directed histories, "
+                                            "whose ledgers look at the same thing"},
+                           "problems": [f"retained result changed: {what}"]}, sig={"kind": "retained result changed (run-wide)"})
             _GLOBAL[k] = (raw, raw.copy(), what)
             return
     ctx.count("retained:run-wide-recheck:oracle-only")
@@ -739,6 +811,7 @@ class Ledger:
                              f"(max difference {_maxdiff(e['raw'], e['copy'])}) after {after}")
                 e["copy"] = copy.deepcopy(e["raw"])
                 e["live"] = False
+                _global_scribbled(e["raw"])  # (reported here, with a replayable history: not once more run-wide)
             elif e["live"]:
                 bad = rho_clauses(e["raw"], e["ref"])
                 if bad:
@@ -840,7 +913,7 @@ def hist_apply(base, n: int, gates: list, pobj: dict, how: str) -> None:
 def hist_model_prog(prog: list, ptab: dict, bits: list):
     out = [["X", q] for q, b in enumerate(bits) if b]
     for g in prog:
-        if g[0] in ("MODEU", "PRIM", "PBS"):
+        if g[0] in ("MODEU", "PRIM", "PBS", "HERU"):
             return None
         if g[0] == "PPS":
             ph = PHASE_Q2[ptab[g[3]]["k"] % 8]
@@ -872,6 +945,9 @@ def other_bits(rng, n: int, cur: list) -> list:
 
 
 def gen_hist_case(ctx: Ctx, rng) -> dict:
+    # (the retained-results steps draw from a stream of their own, derived from the state of `rng` without consuming it:
+    # the histories proper stay what they were per seed)
+    xrng = derived_rng(rng)
     n = rng.choices([1, 2, 3], weights=[40, 45, 15])[0]
     wild = rng.random() < 0.25
     prog = gen_wild(rng, n) if wild else tm.rand_gate_program(rng, n, max_len=2 + 2 * n, max_her=1)
@@ -892,7 +968,8 @@ def gen_hist_case(ctx: Ctx, rng) -> dict:
         prog[pos:pos] = [[rng.choice(["H", "SX"]), q], gate] if rng.random() < 0.6 else [gate]
     n_her = sum(1 for g in prog if g[0] in ("CZ", "CNOT") and g[3]["impl"] == "her")
     n_ps = sum(1 for g in prog if g[0] in ("CZ", "CNOT") and g[3]["impl"] == "ps")
-    small = 2 * n + 4 * n_her + 2 * n_ps <= 8
+    n_heru = sum(len(g[2]) + 2 * sum(h[0] for h in g[2]) for g in prog if g[0] == "HERU")
+    small = 2 * n + 4 * n_her + 2 * n_ps + n_heru <= 8
     rounds = rng.choice([2, 2, 3, 3, 4])
     cuts = sorted(rng.randint(0, len(prog)) for _ in range(rounds - 1))
     if cuts[0] == len(prog):
@@ -937,7 +1014,7 @@ def gen_hist_case(ctx: Ctx, rng) -> dict:
             elif x < 0.5 and state[o]["exp"]["kind"] != "one-arg":
                 cur = state[o]["args"] if state[o]["args"] is not None else state[o]["exp"]["in_bits"]
                 bits = None if (state[o]["args"] is not None and rng.random() < 0.2) else other_bits(rng, n, cur)
-                if bits is not None and state[o]["args"] is not None and rng.random() < 0.45:
+                if bits is not None and state[o]["args"] is not None and xrng.random() < 0.45:
                     # the client refills the list it handed over (in place) and assigns it again
                     steps.append({"op": "clobber", "what": "args", "obj": o, "args": bits})
                 else:
@@ -961,18 +1038,18 @@ def gen_hist_case(ctx: Ctx, rng) -> dict:
     first = next(k for k, st in enumerate(steps) if st["op"] == "process")
 
     def ins(st: dict) -> None:
-        steps.insert(rng.randint(first + 1, len(steps)), st)
+        steps.insert(xrng.randint(first + 1, len(steps)), st)
 
-    if rng.random() < 0.35:
-        for _ in range(rng.choice([1, 1, 2])):
-            ins({"op": "scribble", "entry": rng.randrange(64), "how": rng.choice(SCRIBBLES)})
-    if rng.random() < 0.35:
-        ins({"op": "clobber", "what": "results", "how": rng.choice(["clear-dicts", "zero-counts", "drop-list"])})
-    if rng.random() < 0.2:
+    if xrng.random() < 0.35:
+        for _ in range(xrng.choice([1, 1, 2])):
+            ins({"op": "scribble", "entry": xrng.randrange(64), "how": xrng.choice(SCRIBBLES)})
+    if xrng.random() < 0.35:
+        ins({"op": "clobber", "what": "results", "how": xrng.choice(["clear-dicts", "zero-counts", "drop-list", "refill", "refill", "rotate"])})
+    if xrng.random() < 0.2:
         ins({"op": "clobber", "what": "ref"})
-    if rng.random() < 0.4:
-        for _ in range(rng.choice([1, 1, 2])):
-            ins(rand_other(rng, n))
+    if xrng.random() < 0.4:
+        for _ in range(xrng.choice([1, 1, 2])):
+            ins(rand_other(xrng, n))
     return {"stream": "hist", "n": n, "params": params, "steps": steps}
 
 
@@ -1050,6 +1127,19 @@ HIST_CORPUS = [
         {"op": "process", "obj": 0},
         {"op": "tidy", "what": "unpack_groups"},
         {"op": "process", "obj": 0}]},
+    # heralded / post-selected gates are in the base circuit while it is measured, then construction goes on (by single
+    # gates, by a sub-circuit) and it is measured again
+    {"stream": "hist", "n": 2, "params": {}, "steps": [
+        {"op": "extend", "gates": [["H", 0], ["CNOT", 0, 1, {"impl": "her"}]], "how": "each"},
+        {"op": "new", "obj": 0, "exp": {"source": "sim", "drop_zero": False, "shuffle": 15, "in_bits": [0, 0],
+                                        "kind": "function"}, "args": None},
+        {"op": "process", "obj": 0},
+        {"op": "extend", "gates": [["SX", 1], ["T", 0]], "how": "each"},
+        {"op": "process", "obj": 0},
+        {"op": "extend", "gates": [["CZ", 0, 1, {"impl": "ps"}], ["H", 1]], "how": "sub"},
+        {"op": "process", "obj": 0},
+        {"op": "extend", "gates": [["Y", 0]], "how": "each"},
+        {"op": "process", "obj": 0}]},
     # a Parameter sweep on ONE object, `rhos = [tomo.process() for value in sweep]`: every collected matrix is looked at
     # after the sweep; then the client zeroes the first one, other objects (same size, another size) work, the client
     # clears its result dictionaries and the matrices it gave to fidelity(), and the sweep goes on
@@ -1066,7 +1156,7 @@ HIST_CORPUS = [
         {"op": "scribble", "entry": 0, "how": "zero"},
         {"op": "other", "n": 2, "prog": [["SX", 0], ["H", 1], ["CZ", 0, 1, {"impl": "ps"}]], "bits": [0, 1], "shuffle": 10},
         {"op": "other", "n": 1, "prog": [["H", 0], ["T", 0]], "bits": [0], "shuffle": 11},
-        {"op": "clobber", "what": "results", "how": "clear-dicts"},
+        {"op": "clobber", "what": "results", "how": "refill"},
         {"op": "clobber", "what": "ref"},
         {"op": "setparam", "pid": "1", "k": 4},
         {"op": "process", "obj": 0},
@@ -1100,6 +1190,10 @@ def run_hist(ctx: Ctx, case: dict, want_info: bool = False):
     ptab = {pid: dict(v) for pid, v in case["params"].items()}
     pobj = {pid: lw.Parameter(param_value(v)) for pid, v in ptab.items()}
     base = lw.Circuit(2 * n)
+    # a TWIN of the base circuit: the same construction calls, never handed to a StateTomography.  "The base circuit is
+    # left unchanged" includes what U / heralds do not show right away (group structure, ancilla bookkeeping): the next
+    # construction call must land on the base circuit exactly as it lands on the twin.
+    twin = lw.Circuit(2 * n)
     cum: list = []
     objs: dict = {}
     cache: dict = {}
@@ -1177,8 +1271,10 @@ def run_hist(ctx: Ctx, case: dict, want_info: bool = False):
         if op == "extend":
             before_modes = base.n_modes
             hist_apply(base, n, st["gates"], pobj, st["how"])
+            hist_apply(twin, n, st["gates"], pobj, st["how"])
             cum += st["gates"]
             tag = "extend-" + st["how"] + ("-adding-heralds" if base.n_modes != before_modes else "")
+            probs += [f"{x} [history step {i}]" for x in twin_problem(ctx, base, twin, info["processes"], tag)]
         elif op == "setparam":
             ptab[st["pid"]] = {"kind": "phase", "k": st["k"]} if "k" in st else {"kind": "refl", "v": st["v"]}
             pobj[st["pid"]].set(param_value(ptab[st["pid"]]))
@@ -1199,13 +1295,15 @@ def run_hist(ctx: Ctx, case: dict, want_info: bool = False):
             o["ahand"] = None if o["alist"] is None else led.hand_in(o["alist"], f"the experiment_args list of object {st['obj']}")
             o["tomo"].experiment_args = o["alist"]
         elif op == "tidy":
-            if st["what"] == "barrier":
-                base.barrier()
-            else:
-                getattr(base, st["what"])()
+            for c_ in (base, twin):
+                if st["what"] == "barrier":
+                    c_.barrier()
+                else:
+                    getattr(c_, st["what"])()
             if st["what"] == "unpack_groups" and base.heralds["output"]:
                 unpacked_with_heralds = True
             tag = "tidy-" + st["what"]
+            probs += [f"{x} [history step {i}]" for x in twin_problem(ctx, base, twin, info["processes"], tag)]
         elif op == "scribble":
             # the client post-processes a matrix it was handed, in place
             w = led.scribble(ctx, st["entry"], st["how"])
@@ -1230,13 +1328,23 @@ def run_hist(ctx: Ctx, case: dict, want_info: bool = False):
                         for d in out:
                             for k in d:
                                 d[k] = 0
+                    elif st["how"] == "refill":
+                        # the dictionaries are used again for the data of the next experiment: valid counts of
+                        # another state (here: every outcome equally often)
+                        for d in out:
+                            d.clear()
+                            d.update({s_: 25 for s_ in tm.dual_rail_states(n)})
+                    elif st["how"] == "rotate":
+                        for d in out:
+                            ks, vs = list(d), list(d.values())
+                            d.update(dict(zip(ks, vs[1:] + vs[:1])))
                     else:
                         out.clear()
                     led.clobbered(h)
                     done += 1
                 if not done:
                     continue
-                after = f"the client cleared ({st['how']}) the result dictionaries its experiment had returned"
+                after = f"the client re-used ({st['how']}) the result dictionaries its experiment had returned"
             elif what == "ref":
                 done = 0
                 for ow in led.owners.values():
@@ -1301,6 +1409,21 @@ def run_hist(ctx: Ctx, case: dict, want_info: bool = False):
     return (probs, info) if want_info else probs
 
 
+def twin_problem(ctx: Ctx, base, twin, n_processed: int, tag: str) -> list[str]:
+    """after a construction call made on both: the base circuit (handed to StateTomography objects, measured
+    `n_processed` times so far) against its never-measured twin"""
+    a, b = cg.observe(base), cg.observe(twin)
+    if n_processed:
+        ctx.count("hist:base-compared-with-never-measured-twin-after-a-construction-call")
+    same = (a["n"], a["input_modes"], a["in_heralds"], a["out_heralds"]) == (b["n"], b["input_modes"], b["in_heralds"], b["out_heralds"]) \
+        and ("U_full" in a) == ("U_full" in b) and ("U_full" not in a or (a["U_full"].shape == b["U_full"].shape
+                                                                     and bool(np.all(np.abs(a["U_full"] - b["U_full"]) <= 1e-12))))
+    if same:
+        return []
+    return [f"oracle: the base circuit was modified by process(): after {tag} it differs from a never-measured twin built by "
+            f"the same construction calls ({n_processed} process() calls so far)"]
+
+
 def compare_with_fresh(ctx: Ctx, n: int, base, o: dict, bits: list, detail: dict, cache: dict,
                        led: "Ledger | None" = None, step: int = 0) -> list[str]:
     """a StateTomography constructed NOW on the same base circuit, same data source: the circuits it
@@ -1353,10 +1476,11 @@ def compare_with_fresh(ctx: Ctx, n: int, base, o: dict, bits: list, detail: dict
     return probs
 
 
-def shrink_hist(ctx: Ctx, case: dict) -> dict:
+def shrink_hist(ctx: Ctx, case: dict, lead: str | None = None) -> dict:
+    """`lead`: the kind of the first problem; the smaller history must still show a problem of that kind"""
     def still(steps):
         try:
-            return bool(run_hist(ctx, dict(case, steps=steps)))
+            return any(lead is None or lead in p for p in run_hist(ctx, dict(case, steps=steps)))
         except Exception:  # noqa: BLE001  (a history that is no longer well formed)
             return False
 
@@ -1754,6 +1878,8 @@ def case_key(case: dict) -> str:
 
 
 def run_case(ctx: Ctx, case: dict) -> list[str]:
+    if case["stream"] == "retained":  # replay of a run-wide observation: the directed histories keep ledgers of the same
+        return [p for c in HIST_CORPUS for p in run_hist(ctx, c)]
     if case["stream"] == "state":
         return run_state(ctx, case)
     if case["stream"] == "data":
@@ -1856,7 +1982,8 @@ def report(ctx: Ctx, case: dict, probs: list[str]) -> None:
         small = shrink_state(ctx, case)
         probs = run_state(ctx, small) or probs
     elif case["stream"] == "hist" and len(ctx.violations) < ctx.max_reports:  # (later ones are only counted)
-        small = shrink_hist(ctx, case)
+        lead = ([p for p in probs if p.startswith("oracle")] or probs)[0].split(":")[1].strip()[:25]
+        small = shrink_hist(ctx, case, lead)
         probs = run_hist(ctx, small) or probs
     elif case["stream"] == "fid" and len(ctx.violations) < ctx.max_reports:
         small = shrink_fid(ctx, case)
@@ -1906,15 +2033,15 @@ def run(ctx: Ctx) -> None:
             ctx.count("hist:state-changed-between-calls")
         if info["modes_changed_between_calls"]:
             ctx.count("hist:modes-added-between-calls")
-        if any(st["op"] == "extend" and any(g[0] in ("MODEU", "PRIM", "PBS") for g in st["gates"])
+        if any(st["op"] == "extend" and any(g[0] in ("MODEU", "PRIM", "PBS", "HERU") for g in st["gates"])
                for st in case["steps"]):
             ctx.count("hist:oracle-only")
         ctx.count("hist:retained-results-rechecked:oracle-only", info["ledger"].rechecks)
         ctx.count("hist:results-on-the-books-while-another-object-works", info["retained_while_another_object_works"])
-        recheck_global(ctx, "after a history")
         ctx.case(case_key(case), info["state_changed_between_calls"] > 0)
         if probs:
             report(ctx, case, probs)
+        recheck_global(ctx, "after a history")
 
     def one_simple(case, fn, nontrivial):
         probs = fn(ctx, case)
@@ -1927,6 +2054,9 @@ def run(ctx: Ctx) -> None:
         one_hist(case, True)
     one_simple(_f28_case(), run_fid, True)
     ctx.count("fid:directed")
+    for case in state_corpus():
+        ctx.count("state:directed")
+        one_simple(case, run_state, True)
     for i in range(n_state):
         if ctx.out_of_time():
             break
@@ -1941,8 +2071,14 @@ def run(ctx: Ctx) -> None:
                 ctx.count(f"state:{g[0]}-{g[3]['impl']}" + ("-reversed" if g[0] == "CNOT" and g[2] < g[1] else ""))
             elif g[0] in ("U", "SWAP", "MODEU", "PRIM"):
                 ctx.count("state:" + g[0])
+            elif g[0] == "HERU":
+                ctx.count("state:user-made-heralded-sub-circuit:oracle-only")
+                if any(0 < mi < len(g[1]) - 1 for _ph, mi, _mo in g[2]):
+                    ctx.count("state:herald-inside-the-mode-range-of-a-user-made-sub-circuit")
         if any(case["in_bits"]):
             ctx.count("state:input-not-all-zero")
+        for k, v in (case.get("settings") or {}).items():
+            ctx.count(f"state:settings.{k}={v:g}")
         nontriv = False
         if detail is not None:
             base = tm.build_base(n, case["prog"])
